@@ -105,6 +105,8 @@ type World struct {
 	handlers   map[string]http.Handler
 	// keyName maps a concrete cache key to its model name
 	keyName map[string]string
+	// BodyOf generates the body of version v (free-running mode); nil: the default self-describing body
+	BodyOf func(v int, ri *ReqInfo, req *http.Request) []byte
 	// Tap sees every hook point first (decision-table runners that drive pike objects directly)
 	Tap func(pt string, obj interface{}, args ...interface{})
 	// Policy decides the outcome in free-running mode (no proc)
@@ -498,7 +500,9 @@ func (w *World) finish(ri *ReqInfo, code int, h http.Header, body []byte, res *R
 		w.emitLocked(Event{"op": "Age", "r": ri.Rid, "age": res.Age, "now": ageNow})
 	}
 	w.emitLocked(Event{"op": "End", "r": ri.Rid, "label": label, "err": errClass, "v": res.Ver, "code": code})
-	delete(w.reqGid, ri.Gid)
+	if w.reqGid[ri.Gid] == ri {
+		delete(w.reqGid, ri.Gid)
+	}
 	delete(w.reqs, ri.Rid)
 	w.mu.Unlock()
 }
@@ -568,14 +572,12 @@ func (w *World) point(pt string, obj interface{}, args ...interface{}) {
 		w.mu.Unlock()
 	case "req.start":
 		w.mu.Lock()
-		if ri := w.reqGid[gid]; ri != nil {
+		// the request names itself (a server goroutine serves many requests of one connection, one after the other)
+		c := args[0].(*elton.Context)
+		if ri := w.adopt(gid, c.Request); ri != nil {
 			w.emitLocked(Event{"op": "Start", "r": ri.Rid, "k": ri.Key, "d": ri.Disp, "m": ri.Method})
 		} else {
-			// free-running: the request arrives on a server goroutine
-			c := args[0].(*elton.Context)
-			if ri := w.adopt(gid, c.Request); ri != nil {
-				w.emitLocked(Event{"op": "Start", "r": ri.Rid, "k": ri.Key, "d": ri.Disp, "m": ri.Method})
-			}
+			delete(w.reqGid, gid)
 		}
 		w.mu.Unlock()
 	case "lookup.found", "lookup.new":
@@ -638,7 +640,7 @@ func (w *World) point(pt string, obj interface{}, args ...interface{}) {
 			// the clock and the lifetime are the true ones (harness clock, what the origin granted),
 			// not the values the code stamped on the entry
 			w.emitLocked(Event{"op": "Publish", "e": w.entID(obj), "d": ri.Disp, "k": ri.Key,
-				"v": respVer(st.Response), "now": w.Clock(), "ttl": ri.used.Granted(), "code_ttl": int(st.ExpiredAt - st.CreatedAt)})
+				"v": respVer(st.Response), "now": w.Clock(), "cnow": w.last(gid), "ttl": ri.used.Granted(), "code_ttl": int(st.ExpiredAt - st.CreatedAt)})
 		}
 		w.mu.Unlock()
 	case "hfp.set":
@@ -648,7 +650,7 @@ func (w *World) point(pt string, obj interface{}, args ...interface{}) {
 		if ri := w.reqGid[gid]; ri != nil {
 			// the period is the configured one (<= 0: 300 s), counted from the true clock
 			w.emitLocked(Event{"op": "Hfp", "e": w.entID(obj), "d": ri.Disp, "k": ri.Key,
-				"now": w.Clock(), "eff": w.effHfp(ri.Disp), "code_eff": int(st.ExpiredAt - w.Base - now)})
+				"now": w.Clock(), "cnow": now, "eff": w.effHfp(ri.Disp), "code_eff": int(st.ExpiredAt - w.Base - now)})
 		}
 		w.mu.Unlock()
 	case "purge.lock":
@@ -831,6 +833,9 @@ func (w *World) upstreamHandler(rw http.ResponseWriter, req *http.Request) {
 		status = 200
 	}
 	body := out.Body
+	if body == nil && w.BodyOf != nil {
+		body = w.BodyOf(v, ri, req)
+	}
 	if body == nil {
 		body = []byte(fmt.Sprintf("v=%d k=%s r=%d %s %s %s", v, ri.Key, ri.Rid, req.Method, req.Host, req.URL.RequestURI()))
 	}
